@@ -423,10 +423,10 @@ func TestC18(t *testing.T) {
 		Warmup:         storesim.Warmup,
 		Describe:       describe,
 		Tier:           "A",
-		RequiredProbes: []string{"restore-verified", "write-during-backup", "cut-detected", "cut-at-block-boundary", "export-verified", "rpc-copy-verified", "rpc-copy-refused", "rpc-copy-verified-under-fault"},
+		RequiredProbes: []string{"restore-verified", "write-during-backup", "cut-detected", "cut-at-block-boundary", "export-verified", "rpc-copy-verified", "rpc-copy-refused", "rpc-copy-verified-under-fault", "rpc-copy-retried-after-failure"},
 		Real:           []string{"tsdb.Store.BackupShard / RestoreShard / ExportShard / ImportShard", "tsm1.Engine.Backup, CreateSnapshot, overlay, readFileFromBackup", "pkg/tar stream", "the storage engine underneath (as C02)", "RPC mode (1 run in 5): coordinator.Client.CopyShard, coordinator.Service processCopyShardRequest / backupRemoteShard / processBackupShardRequest on two real data nodes behind tcp.Mux"},
 		Stub:           []string{"the network between source and destination: in the store mode the backup stream is carried in a buffer and cut at seeded offsets (what a reset connection delivers); in RPC mode it is the simulated network (fragmenting, slow, reset or closed cleanly after a drawn number of bytes); the meta handler that adds the owner after a successful copy is not run"},
 		Assumptions:    []string{"incremental backups (since != epoch) are not explored: the filter compares file mtimes, which the kernel stamps with real time while the simulation runs on a fake clock"},
-		Rule:           "a run = seeded source history, then full backup (1/3 with an acknowledged write parked inside the backup's snapshot) restored into a fresh store and compared through both read paths (also after a restart), 0-6 cuts of the stream (block boundaries, before the trailer, random) offered to RestoreShard, and a time-bounded export/import compared with the model restricted to the range; non-trivial = the full restore was verified. RPC mode (1 run in 5): 1-6 write batches with snapshot / full compaction / delete steps on node 1, then the real copy-shard request to node 2 over a faulted connection between the nodes; a copy reported complete must read exactly like the source, and the request must return",
+		Rule:           "a run = seeded source history, then full backup (1/3 with an acknowledged write parked inside the backup's snapshot) restored into a fresh store and compared through both read paths (also after a restart), 0-6 cuts of the stream (block boundaries, before the trailer, random) offered to RestoreShard, and a time-bounded export/import compared with the model restricted to the range; non-trivial = the full restore was verified. RPC mode (1 run in 5): 1-6 write batches with snapshot / full compaction / delete steps on node 1, then the real copy-shard request to node 2 over a faulted connection between the nodes; a copy reported complete must read exactly like the source, the request must return, and a copy that failed under the fault is retried over a healthy network and must then succeed and be faithful",
 	})
 }
